@@ -274,6 +274,11 @@ def enabled_ops(m, maxrows):
             ops.append(['mask', list(bits)])
         ops.append(['ints', []])
         if n:
+            ops.append(['mask_np', [i % 2 for i in range(n)]])
+            ops.append(['mask_np', [0] * n])
+            ops.append(['ints_range', 0, n, 2])
+            ops.append(['ints_range', 0, n, 1])
+            ops.append(['ints_np', [n - 1, 0]])
             for il in ([0], [n - 1], [0, 0], [n - 1, 0], [-1]):
                 ops.append(['ints', il])
         for k in range(1, len(cols) + 1):
@@ -421,6 +426,16 @@ def apply_op(op, t, m):
             return ret(t[mask], Model(m.cols, [r for r, b in zip(m.rows, mask) if b]))
         if o == 'ints':
             return ret(t[list(op[1])], Model(m.cols, [m.rows[i] for i in op[1]]))
+        if o == 'mask_np':
+            import numpy as np
+            mask = [bool(b) for b in op[1]]
+            return ret(t[np.array(mask, dtype=bool)], Model(m.cols, [r for r, b in zip(m.rows, mask) if b]))
+        if o == 'ints_range':
+            rg = range(op[1], op[2], op[3])
+            return ret(t[rg], Model(m.cols, [m.rows[i] for i in rg]))
+        if o == 'ints_np':
+            import numpy as np
+            return ret(t[np.array(op[1])], Model(m.cols, [m.rows[i] for i in op[1]]))
         if o == 'proj':
             return ret(t[list(op[1])], Model(op[1], [{c: r[c] for c in op[1]} for r in m.rows]))
         if o == 'and':
